@@ -57,7 +57,11 @@ func wsGenSession(w *sim.World, nMsgs, maxSize int, allowCtl bool) *wsGenOut {
 	g := &wsGenOut{}
 	for i := 0; i < nMsgs; i++ {
 		var size int
-		switch w.Choose(10) {
+		switch w.Choose(12) {
+		case 10, 11:
+			// the frame ends within a few bytes of a power of two: the stream's
+			// read buffer starts at one and grows to others
+			size = w.Pick(4096, 4096, 8192, 16384, 65536+4096) - w.Range(0, 20)
 		case 0:
 			size = 0
 		case 1:
